@@ -371,6 +371,18 @@ def section8():
         'C18e': 'gap closing with the goal NEARER than the step',
         'C04e': '(caught by the correspondence only at first) constructor-form poses are now also USED as operands of localToGlobal / globalToLocal and compared with ref*T / inv(ref)*T, which gives the failing input',
         'C17e': '(caught by the generated call-site theorem only at first) the bounds-checked worker now exercises every optional-argument form of the index-taking calls (protect=True), which gives the failing input',
+        'C01f': 'tolerance tests made NaN-safe (a not-a-number result no longer passes `x > tol`; done in every harness: `G.gt`) and an exact half-turn pose about a generic axis added to the SE(3) round trip of every iteration',
+        'C04f': 'pose pairs inside the quantifier (quarter turns about a coordinate axis) whose COMPOSITION is an exact half turn; products in the code\'s exact half-turn branch are no longer excluded as near-pi',
+        'C06f': 'the link-mass statics are queried with an explicit joint vector while the arm is parked elsewhere and compared with the defaulted form at that configuration',
+        'C07f': 'a third of the arms carry a tool (setArbitraryHome, not restored) when IK is called',
+        'C08f': 'every run contains a 7-joint and a 1-joint arm (both ends of the quantifier)',
+        'C09f': '(caught by the correspondence only at first) FK of lengths that differ from neutral in ONE actuator, each of the six, both solvers: gives the failing input',
+        'C10f': 'out-of-workspace requests include tilts about a plate diagonal between 63 and 86 degrees (R00 and R11 stay above 1/2, R22 does not)',
+        'C11f': 'sumActuatorWrenches is called with explicit leg forces that are not the ones the last statics call stored; model correspondence and -invJ^T f',
+        'C12f': 'whole-number forces at a point in every form a caller writes them (int array, list of ints, int magnitude times direction)',
+        'C14f': 'operators with the scalars that invite a shortcut (0 for + and -, 1 for * and /), direct and reflected, sum() over one element, tm composed with the identity',
+        'C18f': 'lookAt targets ALMOST above / below the viewer (lateral offsets 5e-7, 1e-7, 2e-8)',
+        'C19f': 'sinks are bound methods taken afresh for every registration (equal, not identical); a sink counts once however often it is listed',
         'C11': 'small platforms placed up to 12 from the origin so that cond(invJ) reaches 1e3..1e4 (the upper part of the property\'s range)',
     }
     for d in sorted(glob.glob(os.path.join(V, 'seeded', '*', 'meta.json'))):
